@@ -25,14 +25,17 @@ def fits_reference(hdr, x, y, distort=True):
     if proj == "-TAN-SIP":
         u, v = dx, dy
         if distort and any(k.startswith("a_") and k != "a_order" for k in hdr):
-            order = int(hdr["a_order"])
             fu = np.zeros_like(dx)
             fv = np.zeros_like(dx)
-            for p in range(order + 1):
-                for q in range(order + 1):
-                    ka, kb = "a_%d_%d" % (p, q), "b_%d_%d" % (p, q)
+            # each polynomial has its own order keyword (A_ORDER for the A_p_q, B_ORDER for the B_p_q)
+            for p in range(int(hdr["a_order"]) + 1):
+                for q in range(int(hdr["a_order"]) + 1):
+                    ka = "a_%d_%d" % (p, q)
                     if ka in hdr:
                         fu = fu + L(hdr[ka]) * dx ** p * dy ** q
+            for p in range(int(hdr.get("b_order", hdr["a_order"])) + 1):
+                for q in range(int(hdr.get("b_order", hdr["a_order"])) + 1):
+                    kb = "b_%d_%d" % (p, q)
                     if kb in hdr:
                         fv = fv + L(hdr[kb]) * dx ** p * dy ** q
             u, v = dx + fu, dy + fv
@@ -276,11 +279,19 @@ def _headers(tier, seed):
                         h["pv%d_%d" % (ax, i)] = v
             if kind == "TAN-SIP":
                 order = rng.choice([2, 3, 4])
-                h["a_order"] = order
-                h["b_order"] = order
-                h["ap_order"] = order      # the constructor requires the inverse orders to be present
-                h["bp_order"] = order
+                orders = {"a": order, "b": order}
+                nsip = sum(1 for o in out if "a_order" in o and "znaxis1" not in o)
+                if nsip < 2:
+                    # the two polynomials need not have the same order: one header of each kind in every run
+                    orders = {"a": 2 + nsip, "b": 3 - nsip}
+                elif rng.random() < 0.4:
+                    orders = {"a": rng.choice([2, 3, 4]), "b": rng.choice([2, 3, 4])}
+                h["a_order"] = orders["a"]
+                h["b_order"] = orders["b"]
+                h["ap_order"] = max(orders.values())      # the constructor requires the inverse orders to be present
+                h["bp_order"] = max(orders.values())
                 for p in ("a", "b"):
+                    order = orders[p]
                     for i in range(order + 1):
                         for j in range(order + 1 - i):
                             if i + j >= 2:
